@@ -136,6 +136,13 @@ func (g *pgen) iterable(d int) Expr {
 			g.use("iterable-with-instrumented-Symbol.iterator")
 			it.Wrap = true
 		}
+		if g.t.Draw(4) == 0 {
+			// the iterator's result objects have accessors for 'done' and 'value': which consumer reads what, and when,
+			// becomes part of the event log (for-of / destructuring / built-ins: done, then value unless done; yield*:
+			// done, value only of the final result, intermediate results are handed to the outer consumer untouched)
+			g.use("iterator-results-with-accessors")
+			it.Flags |= 4
+		}
 		return it
 	case k <= 4:
 		g.use("array-iterable")
@@ -502,9 +509,9 @@ func genProgram(t *core.Track, mode string) (*Program, map[string]int) {
 		g.plain = append(g.plain, f)
 		pr.Funcs = append(pr.Funcs, f)
 	}
-	if mode == "C09" || (ng > 0 && t.Draw(4) == 0) {
+	if mode == "C09" || (ng > 0 && t.Draw(2) == 0) {
 		// generator objects live in globals so that any body (including the generator's own) can drive them
-		// (always for C09; in a quarter of the C08 programs that have generators, so that completion values that travel
+		// (always for C09; in half of the C08 programs that have generators, so that completion values that travel
 		// through return()/throw() and yield* delegates are observed there too)
 		nv := 1 + t.Draw(3)
 		for i := 0; i < nv; i++ {
